@@ -97,6 +97,19 @@ def kind_of(r):
     return t['type'] + ':' + (t.get('src') or t.get('dst') or '-')
 
 
+def temp_of(path, x):
+    """x is path itself or a temporary file derived from it (the library's
+    rule: base name cut to fit 255 characters, a dot, 8 hex digits)."""
+    if x == path or x.startswith(path + '.'):
+        return True
+    import os
+    if os.path.dirname(x) != os.path.dirname(path):
+        return False
+    bx, bp = os.path.basename(x), os.path.basename(path)
+    return (len(bp) > 246 and len(bx) == 255 and bx[246] == '.'
+            and bx[:246] == bp[:246])
+
+
 def delivered_for(R, r):
     """Faults delivered to sites of transfer r."""
     out = []
@@ -116,8 +129,8 @@ def delivered_for(R, r):
                       'cb.on_progress'):
             hit = k == i
         elif site.startswith('fs.'):
-            hit = path is not None and isinstance(k, str) and (
-                k == path or k.startswith(path + '.'))
+            hit = path is not None and isinstance(k, str) and \
+                temp_of(path, k)
         if hit:
             out.append((step, site, exc, info))
     return out
@@ -542,12 +555,12 @@ def oracle_c06(R):
         i = r['i']
         lst = R.listing_at_announce.get(i)
         if lst is not None:
-            temps = [x for x in lst if x.startswith(p + '.')]
+            temps = [x for x in lst if x != p and temp_of(p, x)]
             if temps:
                 v.append((f'c06:{mode}:temp-left-at-done',
                           f'download {i}: temporary files {temps} exist when '
                           f'the future is done (step {R.announced.get(i)})'))
-        temps = [x for x in R.fs.listing() if x.startswith(p + '.')]
+        temps = [x for x in R.fs.listing() if x != p and temp_of(p, x)]
         if temps:
             v.append((f'c06:{mode}:temp-left',
                       f'download {i}: temporary files {temps} remain at '
@@ -822,7 +835,7 @@ def oracle_c08(R):
                     hit = True
                 elif k.startswith('fs.') and path is not None:
                     pp = info.get('path') or info.get('dst') or ''
-                    hit = pp == path or pp.startswith(path + '.')
+                    hit = temp_of(path, pp)
                 if hit:
                     v.append((f'c08:{kind}:{k}-after-on_done',
                               f'transfer {i}: {k} at step {step} after '
@@ -1147,8 +1160,7 @@ def oracle_c11(R):
         if k in ('dst.write', 'fs.write') and info.get('n', 0) > ioc:
             if k == 'fs.write' and not any(
                     isinstance(r.get('fileobj'), str)
-                    and (info['path'] == r['fileobj'] or
-                         info['path'].startswith(r['fileobj'] + '.'))
+                    and temp_of(r['fileobj'], info['path'])
                     and r['type'] == 'download' for r in R.all_recs()):
                 continue
             v.append(('c11:write-larger-than-io-chunksize',
